@@ -1258,6 +1258,42 @@ def vc_rename_undo_restores(fns, variants, work):
                           sig=r"_1: &mut ModifiedFiles", what="rename undone without restoring the renamed-over file", assume_fn=assume, seeds={"_2"})
 
 
+def vc_rename_undo_target(fns, variants, work):
+    """ModifiedFiles::rollback: the undo works on the file the patch left its result in (PatchStatus.final_filename), and a rename
+    is undone by moving the content back into the file it was taken from at apply time (PatchStatus.target_filename, the name
+    choose_filename_to_patch picked), not into whatever the patch text calls the old name."""
+    fn = find_fn(fns, r"::rollback$", r"_1: &mut ModifiedFiles")
+    i_target = mirvc.struct_field_index("PatchStatus", "target_filename")
+    i_final = mirvc.struct_field_index("PatchStatus", "final_filename")
+    if i_target is None or i_final is None:
+        raise KeyError("PatchStatus.target_filename / final_filename")
+    found, reached = [], {"before": 0, "after": 0}
+
+    def on_call(eng, st, bb, site, stmt, dst, callee, args, nxt):
+        c = strip_generics(callee)
+        if re.search(r"ModifiedFile::move_out$", c):
+            st.ghost = st.ghost | {"moved_out"}
+        elif re.search(r"ModifiedFile::move_in$", c):
+            st.ghost = st.ghost | {"moved_in"}
+        elif re.search(r"HashMap::get_mut$|HashMap::get$", c) and "moved_in" not in st.ghost:
+            ps = eng.read_path(st, "_2", eng.fn.types["_2"])
+            key, _, _ = eng.operand(st, args[1])
+            after = "moved_out" in st.ghost
+            want = "%s.%d" % (ps.target, i_target if after else i_final)
+            reached["after" if after else "before"] += 1
+            if not isinstance(key, Ref) or key.target != want:
+                ok, _ = eng.feasible(st)
+                if ok:
+                    found.append({"bb": bb, "stmt": stmt[:160], "what": ("a rename is undone into a file other than the one the content was taken from (PatchStatus.target_filename)" if after
+                                  else "the undo does not start from the file the patch left its result in (PatchStatus.final_filename)"), "model": {}, "trace": list(st.trace[-12:])})
+        return None
+
+    eng = Engine(fns, fn, variants, hooks={"on_call": on_call})
+    eng.run()
+    return summarize(eng, found, {"lookup_sites_reached": reached["before"] + reached["after"]}, work, "c04t", witness_ok=reached["before"] > 0 and reached["after"] > 0,
+                     witness_note="expected a lookup before and one after move_out: %r" % reached)
+
+
 def vc_bufwriter_flushed(fns, variants, work, fn_pat, tag, sig=None):
     """Every success return after BufWriter::new has flushed the writer explicitly (drop would swallow the error)."""
     return vc_must_follow(fns, variants, work, fn_pat, r"BufWriter::new$", FLUSH_PAT, tag, sig=sig,
